@@ -159,7 +159,7 @@ def validate_shard(r, idx, trace_file, module, cfg):
     report = os.path.join(wd, "report.json")
     os.makedirs(wd, exist_ok=True)
     rc, out, gen, dist = tlc(r, wd, module, cfg, env_extra={"VERIF_TRACE": trace_file, "VERIF_REPORT": report},
-                             workers=1, timeout=3000)
+                             workers=1, timeout=900 if r.tier == "quick" else 3000)
     if rc != 0 or not os.path.exists(report):
         raise Inconclusive("TLC did not finish trace %s (rc=%s):\n%s" % (trace_file, rc, out[-3000:]))
     with open(report) as f:
